@@ -1,20 +1,243 @@
-//! C03 — not implemented yet (stub).
+//! C03 — every compiled code block is well-formed on all of its paths. A static bytecode
+//! verifier (verify_bc.rs) is applied to the structured dump (hook) of every code block the
+//! compiler finishes while compiling generated programs.
 
 use crate::driver::{CaseOut, Env, Prop, Stream, Tier};
+use crate::genp::{arb, asyncp, ic, limits, prog, wild};
+use crate::run::{RunCfg, install_panic_hook, panic_signature, run_with_dump, take_last_panic};
+use crate::tape::Tape;
+use crate::verify_bc::{Report, context_at, disassemble, verify};
+use boa_engine::verif::BlockDump;
+use boa_engine::{Context, Script, Source};
+use std::cell::RefCell;
+use std::rc::Rc;
 
 pub struct C03;
+
+thread_local! {
+    static KNOWN: Vec<crate::driver::Known> = crate::driver::load_known();
+}
+
+/// compile only (no execution): dumps of the script block and all nested function blocks
+fn compile_dump(src: &str, cfg: &RunCfg) -> Result<Vec<BlockDump>, String> {
+    install_panic_hook();
+    let store: Rc<RefCell<Vec<BlockDump>>> = Rc::new(RefCell::new(Vec::new()));
+    let s2 = store.clone();
+    boa_ast::verif::set_force_escape(cfg.force_escape);
+    boa_engine::verif::set_no_const_cache(cfg.no_const_cache);
+    boa_engine::verif::set_no_hoist(cfg.no_hoist);
+    boa_engine::verif::set_no_fusion(cfg.no_fusion);
+    boa_engine::verif::set_codeblock_sink(Some(Box::new(move |d| s2.borrow_mut().push(d))));
+    let r = std::panic::catch_unwind(std::panic::AssertUnwindSafe(|| {
+        let mut ctx = Context::default();
+        if let Some(bits) = cfg.optimizer {
+            ctx.set_optimizer_options(boa_engine::optimizer::OptimizerOptions::from_bits_truncate(bits));
+        }
+        match Script::parse(Source::from_bytes(src.as_bytes()), None, &mut ctx) {
+            Ok(script) => script.codeblock(&mut ctx).map(|_| ()).map_err(|e| format!("compile error: {e}")),
+            Err(e) => Err(format!("parse error: {e}")),
+        }
+    }));
+    boa_engine::verif::set_codeblock_sink(None);
+    boa_ast::verif::set_force_escape(false);
+    boa_engine::verif::set_no_const_cache(false);
+    boa_engine::verif::set_no_hoist(false);
+    boa_engine::verif::set_no_fusion(false);
+    match r {
+        Err(_) => Err(format!("PANIC {}", panic_signature(&take_last_panic().unwrap_or_default()))),
+        Ok(Err(e)) => Err(e),
+        Ok(Ok(())) => Ok(std::mem::take(&mut *store.borrow_mut())),
+    }
+}
+
+fn cfg_of(k: usize) -> RunCfg {
+    match k {
+        0 => RunCfg { force_escape: true, ..RunCfg::default() },
+        1 => RunCfg { force_escape: true, no_const_cache: true, no_hoist: true, no_fusion: true, ..RunCfg::default() },
+        2 => RunCfg { optimizer: Some(0), ..RunCfg::default() },
+        _ => RunCfg { no_hoist: true, no_fusion: true, ..RunCfg::default() },
+    }
+}
+
+fn block_hash(b: &BlockDump) -> u64 {
+    crate::rng::hash_bytes(&b.bytes)
+}
+
+impl C03 {
+    fn judge(&self, src: &str, dumps: &[BlockDump]) -> CaseOut {
+        let mut nontrivial = false;
+        let mut labels: Vec<&'static str> = vec![];
+        let mut leftovers = 0;
+        let mut known_fail: Option<(String, String)> = None;
+        for b in dumps {
+            let rep: Report = verify(b);
+            if rep.unmodelled.iter().any(|u| u == "state-space-too-large") {
+                return CaseOut::skip(src.to_string(), "depth analysis state space too large");
+            }
+            if !rep.unmodelled.is_empty() {
+                return CaseOut::fail(src.to_string(), format!("unmodelled opcode {}", rep.unmodelled.join(",")), "the verifier's opcode table does not know this opcode (model out of date)".to_string());
+            }
+            for v in &rep.violations {
+                let ctx = context_at(b, v.pc, 3, 1);
+                let ops: Vec<&str> = ctx.split(' ').map(|x| x.split(':').nth(1).unwrap_or("")).collect();
+                let at = b.instructions.iter().find(|i| i.pc == v.pc).map_or("", |i| i.name);
+                let sig = format!("{} at {at} [{}]", v.kind, ops.join(" "));
+                let detail = format!("block '{}' ({}): {} at pc {}\n{}\ncontext: {ctx}\n{}", b.name, b.origin, v.kind, v.pc, v.detail, if b.instructions.len() < 400 { disassemble(b) } else { String::new() });
+                let known = KNOWN.with(|k| crate::driver::match_known(k, "C03", &sig).is_some());
+                if known {
+                    if known_fail.is_none() {
+                        known_fail = Some((sig, detail));
+                    }
+                } else {
+                    return CaseOut::fail(src.to_string(), sig, detail);
+                }
+            }
+            if rep.handler_leftovers.iter().any(|v| v.kind.starts_with("handler-leftover")) {
+                leftovers += 1;
+            }
+            if rep.handler_leftovers.iter().any(|v| v.kind.starts_with("known-f5")) && !labels.contains(&"known-f5-locator-left-on-short-circuit") {
+                labels.push("known-f5-locator-left-on-short-circuit");
+            }
+            if rep.instructions >= 10 && (rep.handlers >= 1 || rep.branches >= 2) {
+                nontrivial = true;
+            }
+            if rep.handlers > 0 && !labels.contains(&"has-handler") {
+                labels.push("has-handler");
+            }
+            if b.is_generator && !labels.contains(&"generator-block") {
+                labels.push("generator-block");
+            }
+            if b.is_async && !labels.contains(&"async-block") {
+                labels.push("async-block");
+            }
+            if b.origin != "script" && !labels.contains(&"runtime-compiled-block") {
+                labels.push("runtime-compiled-block");
+            }
+        }
+        if let Some((sig, detail)) = known_fail {
+            // only violations that match an open known finding: reported under that finding
+            return CaseOut::fail(src.to_string(), sig, detail);
+        }
+        if leftovers > 0 {
+            labels.push("known-f17-handler-does-not-restore-stack-depth");
+        }
+        // the rendered input is the program; distinctness is by program text (block hashes of all blocks folded in)
+        let _ = dumps.iter().map(block_hash).fold(0u64, |a, h| a ^ h);
+        let mut out = CaseOut::pass(src.to_string(), nontrivial).with_labels(labels);
+        if dumps.is_empty() {
+            out.nontrivial = false;
+        }
+        out
+    }
+
+    fn check_src(&self, src: &str, execute: bool, cfg: &RunCfg) -> CaseOut {
+        if execute {
+            let (t, dumps) = run_with_dump(src, cfg);
+            if let crate::run::Completion::Panic(p) = &t.completion {
+                // a compiler/VM panic is C02's finding, but a *compiler* panic leaves no dump to verify
+                if dumps.is_empty() {
+                    return CaseOut::skip(src.to_string(), format!("panic before any block was finished ({p})"));
+                }
+            }
+            self.judge(src, &dumps)
+        } else {
+            match compile_dump(src, cfg) {
+                Ok(d) => self.judge(src, &d),
+                Err(e) if e.starts_with("PANIC") => CaseOut::fail(src.to_string(), format!("compiler panic {e}"), e),
+                Err(_) => CaseOut::skip(src.to_string(), "rejected by the parser/compiler").with_labels(vec!["rejected"]),
+            }
+        }
+    }
+}
 
 impl Prop for C03 {
     fn id(&self) -> &'static str {
         "C03"
     }
-    fn streams(&self, _tier: Tier) -> Vec<Stream> {
-        vec![]
+    fn streams(&self, tier: Tier) -> Vec<Stream> {
+        let m = if tier == Tier::Quick { 1 } else { 60 };
+        vec![
+            Stream::new("program", 5000 * m, 700).batch(250),
+            Stream::new("program-configs", 2000 * m, 700).batch(100),
+            Stream::new("special", 3000 * m, 400).batch(250),
+            Stream::new("arbitrary-ast", 6000 * m, 600).batch(500),
+            Stream::new("mutant", 6000 * m, 600).batch(500),
+            Stream::new("executed", 1500 * m, 700).batch(100),
+        ]
     }
     fn rule(&self) -> String {
-        "stub".into()
+        "inputs: program = gen::prog programs (profiles core/scope/lit, all known-finding exclusions off) compiled without running; program-configs = the same under compiler configurations (every shortcut forced off, optimizer off); special = async/promise programs, inline-cache histories, runtime-limit templates (every re-entry route and loop form) and builtin-call programs; arbitrary-ast = the maintainers' Arbitrary StatementList printed to source; mutant = token-level mutants of programs that still parse; executed = programs that are also run so that code compiled at run time by eval / Function() / JSON.parse is captured. For every code block finished (script, nested functions, class field initialisers, eval, Function, JSON): linear decode ends exactly at the length; every register operand < register_count; every binding/ic/constant/scope operand is inside its table and of the right kind; every jump target, jump-table entry and handler bound is an instruction boundary; a work-list data-flow over the CFG incl. exception edges tracks environment depth, binding-reference depth, argument-stack depth and private-environment depth: never negative, equal at merges, handler environment_count <= depth of every protected instruction, no Return with a pending binding reference. Landing pads assume the depths at the handler start; instructions that can throw with extra argument/binding entries pushed are counted under the known finding F17 (handlers do not restore those depths). Non-trivial = the program produced a block with >= 10 instructions and (>= 1 handler or >= 2 branches); distinct = distinct program text".into()
     }
-    fn run_case(&self, _env: &mut Env, _stream: &str, _index: u64, _tape: &[u8]) -> CaseOut {
-        CaseOut::skip(String::new(), "stub")
+    fn run_case(&self, _env: &mut Env, stream: &str, _index: u64, tape: &[u8]) -> CaseOut {
+        let mut t = Tape::new(tape);
+        let all_off = |o: &mut prog::Opts| {
+            o.excl_f2_rest_after_nested = false;
+            o.excl_f4_param_var_redecl = false;
+            o.excl_f6_operand_then_assign = false;
+            o.excl_f7_update_non_number = false;
+            o.excl_f8_switch_lexical = false;
+            o.excl_f9_pow2_object = false;
+            o.excl_f5_global_logical_assign_in_operand = !std::env::var_os("BV_F5_OFF").is_some();
+            o.excl_f17_catch_in_finally = false;
+        };
+        let rest = &tape[tape.len().min(4)..];
+        let gen_prog = |t: &mut Tape<'_>| {
+            let mut o = match t.below(3) {
+                0 => prog::Opts::core(),
+                1 => prog::Opts::scope(),
+                _ => prog::Opts::lit(),
+            };
+            all_off(&mut o);
+            o.in_main = t.bool();
+            o.w_eval = 6;
+            o.w_with = 4;
+            prog::generate(rest, o).src
+        };
+        match stream {
+            "program" => {
+                let src = gen_prog(&mut t);
+                self.check_src(&src, false, &RunCfg::default())
+            }
+            "program-configs" => {
+                let src = gen_prog(&mut t);
+                let k = t.below(4);
+                let src = format!("//C03-CONFIG {k}\n{src}");
+                self.check_src(&src, false, &cfg_of(k))
+            }
+            "special" => {
+                let src = match t.below(4) {
+                    0 => asyncp::generate(rest).src,
+                    1 => ic::generate(rest, &ic::IcOpts { excl_f10_proto_shape_change: false, excl_f23_array_length_store: false, excl_f24_shape_change_in_accessor: false }).src,
+                    2 => limits::generate(rest).src,
+                    _ => wild::generate(rest).src,
+                };
+                self.check_src(&src, false, &RunCfg::default())
+            }
+            "arbitrary-ast" => match arb::arb_source(tape) {
+                Some(s) => self.check_src(&s, false, &RunCfg::default()),
+                None => CaseOut::skip(String::new(), "arbitrary-ast-not-generated"),
+            },
+            "mutant" => {
+                let base = gen_prog(&mut t);
+                let body = base[base.find(prog::PRELUDE).map_or(0, |i| i + prog::PRELUDE.len())..].to_string();
+                let m = crate::props::c02::mutate_text(&body, &mut t);
+                self.check_src(&m, false, &RunCfg::default())
+            }
+            _ => {
+                let src = gen_prog(&mut t);
+                self.check_src(&src, true, &RunCfg { loop_limit: 20_000, ..RunCfg::default() })
+            }
+        }
+    }
+    fn run_rendered(&self, _env: &mut Env, stream: &str, rendered: &str) -> Option<CaseOut> {
+        let mut cfg = RunCfg::default();
+        if let Some(k) = rendered.strip_prefix("//C03-CONFIG ").and_then(|r| r.chars().next()).and_then(|c| c.to_digit(10)) {
+            cfg = cfg_of(k as usize);
+        }
+        cfg.loop_limit = 20_000;
+        Some(self.check_src(rendered, stream == "executed", &cfg))
+    }
+    fn rendered_prefix_lines(&self, r: &str) -> usize {
+        usize::from(r.starts_with("//C03-CONFIG"))
     }
 }
